@@ -86,6 +86,9 @@ QUERIES = [
     ("L.drop_duplicates()", False, 1, None, "dedup"),
     ("L.a.unique()", False, 1, None, "dedup"),
     ("L.a.value_counts()", False, 1, None, "dedup"),
+    ("L.b.value_counts(normalize=True)", False, 1, None, "dedup"),
+    ("L.b.value_counts(normalize=True, split_out=1)", False, 1, None, "dedup"),
+    ("L.a.value_counts(normalize=True, split_out=2)", False, 1, None, "dedup"),
     ("L.nlargest(2, 'a')", False, 1, None, "nlargest"),
     ("L.a.nsmallest(2)", False, 1, None, "nlargest"),
     ("L.nlargest(2, 'b')", False, 1, None, "nlargest"),
